@@ -13,6 +13,7 @@ EXPLANATION = (
     "horizontal / vertical connectors are axis-parallel lines through the middle of the overlap (max of the mins, min of the "
     "maxes on the shared axis), both siblings resolving endpoint boxes through the element map; (3) wiring: location -> "
     "direction table and connection-type words. Undecided: minimal-distance choice, offsets, the overlap arithmetic (numeric)."
+    " A17: h/v/straight connector coordinates (middle of the overlap; literal endpoints) agree as terms with the reference algebra; every candidate location (pair) is measured and compared."
 )
 TRUSTED = []
 ASSUMPTIONS = []
